@@ -101,7 +101,11 @@ Probes == <<
   <<B_("less", B_("mul", G_(Pv, "n"), G_(G_(Rv, "owner"), "n")), LitL(3)), TRUE>>,
   <<B_("eq", G_(Pv, "mgr"), Pv), FALSE>>,
   <<And_(H_(Pv, "mgr"), B_("eq", G_(Pv, "mgr"), Pv)), TRUE>>,
-  <<B_("hasTag", Rv, LitS(TagK)), FALSE>>
+  <<B_("hasTag", Rv, LitS(TagK)), FALSE>>,
+  \* `action in [..]` whose set mixes action literals with a computed action: nothing may be concluded from the literals alone,
+  \* the unguarded optional access behind it stays an error
+  <<And_(B_("in", Av, <<"set", <<<<"lit", TEdit>>, If_(B_("less", G_(Pv, "n"), LitL(5)), <<"lit", TView>>, <<"lit", TEdit>>)>>>>), Use(1)), FALSE>>,
+  <<If_(B_("in", <<"lit", TView>>, <<"set", <<<<"lit", TEdit>>, If_(G_(Rv, "pub"), <<"lit", TView>>, <<"lit", TAll>>)>>>>), Use(2), FF_), FALSE>>
 >>
 
 ==============================================================================
